@@ -300,14 +300,32 @@ func (tb *tables) addText(s string) {
 	}
 }
 
+// the tables are closed under print-then-parse: the printed form of every time / float is parsed again and recorded
 func (tb *tables) addTime(t time.Time) {
 	o := obsTime(t)
-	tb.ftime[fmt.Sprintf("%s/%d", o["ns"], o["off"])] = [2]interface{}{o, hx(t.Format(time.RFC3339Nano))}
+	key := fmt.Sprintf("%s/%d", o["ns"], o["off"])
+	if _, ok := tb.ftime[key]; ok {
+		return
+	}
+	ft := t.Format(time.RFC3339Nano)
+	tb.ftime[key] = [2]interface{}{o, hx(ft)}
+	if t2, err := time.Parse(time.RFC3339Nano, ft); err == nil {
+		tb.ptime[hx(ft)] = obsTime(t2)
+		tb.addTime(t2)
+	}
 }
 
 func (tb *tables) addFloat(f float64) {
 	b := strconv.FormatUint(math.Float64bits(f), 10)
-	tb.ffloat[b] = [2]interface{}{b, hx(fmt.Sprintf("%v", f))}
+	if _, ok := tb.ffloat[b]; ok {
+		return
+	}
+	ff := fmt.Sprintf("%v", f)
+	tb.ffloat[b] = [2]interface{}{b, hx(ff)}
+	if f2, err := strconv.ParseFloat(ff, 64); err == nil {
+		tb.pfloat[hx(ff)] = strconv.FormatUint(math.Float64bits(f2), 10)
+		tb.addFloat(f2)
+	}
 }
 
 func (tb *tables) addVal(v val) {
@@ -650,6 +668,12 @@ var corpusParse = []string{"", " ", "_", "_:", "_:a", "/", "/<", "/a<", "/a<>", 
 	"] \"> \"", "] /> \"", "/a<b> \"p\"@[] /c<d>", "/a<b>\t\"p\"@[2006-01-02T15:04:05.999999999Z]\t\"1\"^^type:int64",
 	"\"a\"@[x", "\"a\"@[\"2006-01-02T15:04:05Z\"]", "\"a\\\"@[b\"@[]", "\"a\"^^type:text\"^^type:text", "\"+1\"^^type:int64",
 	"\"9223372036854775808\"^^type:int64", "\"-9223372036854775808\"^^type:int64", "\"T\"^^type:bool", "\"inf\"^^type:float64",
+	"\"a\"@[2006-01-02T15:04:05+24:00]", "\"a\"@[2006-01-02T15:04:05+23:59]", "\"a\"@[2006-01-02T15:04:05-00:00]", "\"a\"@[0000-01-01T00:00:00Z]",
+	"\"a\"@[0000-01-01T00:00:00+14:00]", "\"a\"@[9999-12-31T23:59:59.999999999-12:00]", "\"a\"@[2006-01-02T15:04:05.999999999+00:00]",
+	"\"a\"@[2006-01-02T24:00:00Z]", "\"a\"@[2016-12-31T23:59:60Z]", "\"a\"@[2006-01-02T15:04:05,5Z]", "\"a\"@[2006-01-02t15:04:05z]",
+	"\"a\"@[2006-01-02T15:04:05.0000000001Z]", "\"a\"@[2006-01-02T15:04:05+01:60]", "\"a\"@[2006-01-02T15:04:05+1:00]",
+	"\"nan\"^^type:float64", "\"-NaN\"^^type:float64", "\"+Inf\"^^type:float64", "\"1e400\"^^type:float64", "\"0x1p-2\"^^type:float64", "\"1e-400\"^^type:float64",
+	"\"4.9e-324\"^^type:float64", "\"-0\"^^type:float64", "\".5\"^^type:float64", "\"5.\"^^type:float64",
 	"\"1_0\"^^type:int64", "\"0x10\"^^type:float64", " /a<b> ", "\xc2/a<b>\xa0", "_:a b", "/_<x>", "/a/<b>", "/a b<c>"}
 
 func mutate(s string) string {
